@@ -22,8 +22,7 @@ RULE = ("random queries from the C04 generator (plus property-path and aggregate
         "full, (init) initBindings vs an added VALUES row, preferring terms that are falsy in Python, (initns) one text with undeclared prefixes under 4 interleaved prefix maps given as initNs or graph bindings vs the IRIs written out, (prep) one prepared query evaluated on A, B, A, A vs fresh parses, also after a failing evaluation, (store) the "
         "same data in Memory, SimpleMemory, AuditableStore(Memory) and a ReadOnlyGraphAggregate over a disjoint partition. Non-trivial: the base answer is non-empty. "
         "Distinct = distinct (query, data, relation).")
-ASSUMPTIONS = ["answers are compared as multisets of bindings (term keys; computed numerics by value)", "swap relation: operand pairs hit by the listed push-down finding of C04 (T2/T3) are not judged",
-               "aggregate over a partition: path patterns are judged as sets"]
+ASSUMPTIONS = ["answers are compared as multisets of bindings (term keys; computed numerics by value)", "swap relation: operand pairs hit by the listed push-down finding of C04 (T2/T3) are not judged"]
 VAR_RENAME = {"x": "r1", "y": "r2", "z": "r3", "w": "r4"}
 
 
@@ -292,11 +291,7 @@ def run_case(case, st=None):
             agg = ReadOnlyGraphAggregate([build(p) for p in parts])
             other = ms(agg.query(text))
             st["store:aggregate"] = st.get("store:aggregate", 0) + 1
-            is_path = case.get("text") and "(" in text.split("WHERE")[1] and "COUNT" not in text
-            if is_path and not case.get("no_carve") and len(parts) > 1:
-                st.setdefault("_known", {})["C15-aggregate-path-duplicates"] = 1
-                if set(other) != set(base): return differ("store:aggregate", other, "(same query on a ReadOnlyGraphAggregate of %d graphs)" % len(parts))
-            elif other != base:
+            if other != base:
                 return differ("store:aggregate", other, "(same query on a ReadOnlyGraphAggregate of %d graphs)" % len(parts))
     except Exception as ex:
         return ("rewrite-raises", "%s\nrelation %s: the rewritten/re-hosted query raised %s: %s" % (text, rel, type(ex).__name__, str(ex)[:300]))
